@@ -300,8 +300,7 @@ def path_json(ctx):
             continue
         for n in ast.walk(g.node):
             if isinstance(n, (ast.Assign, ast.AugAssign, ast.Return)) and \
-                    n.value is not None and has(
-                        F.atoms(n.value, g), 'posixpath', 'sep'):
+                    n.value is not None and _adds_separator(F, n.value, g):
                 c = F.control(n, g)
                 if isinstance(n, ast.Return):
                     c |= F.return_control(g)
@@ -327,6 +326,21 @@ def path_json(ctx):
         e.arg(1, kw='root'), 'InstallRoot') for e in ctors)
     ctx.ob(R, 'from_json|root-lookup', ok, fj.node,
            'root name is not resolved in Root, then InstallRoot')
+
+
+def _adds_separator(F, value, g):
+    """The expression appends a path separator: it mentions posixpath.sep /
+    '/', or joins with an empty last component (`posixpath.join(x, '')`)."""
+    a = F.atoms(value, g)
+    if has(a, 'posixpath', 'sep') or has_const(a, '/'):
+        return True
+    for c in ast.walk(value):
+        if isinstance(c, ast.Call) and Q.callee_attr(c) == 'join' and \
+                c.args and isinstance(c.args[-1], ast.Constant) and \
+                c.args[-1].value == '' and has(
+                    F.atoms(c.func, g), 'posixpath'):
+            return True
+    return False
 
 
 def check(ctx):
